@@ -369,8 +369,9 @@ def slate_box(freq, seed):
     v = lambda k: ival(k, seed)
     o = SL_BASE[freq]
     return {
-        "a": RS.from_rows(freq, o, [(v(0),), (v(1),), (NAN,), (v(2),)], "A"),
-        "b": RS.from_rows(freq, o + 2, [(v(3), v(4), v(5)), (NAN, v(6), v(7)), (v(8), v(9), NAN)], "B"),
+        # (an infinite value is a value, not a missing one: it is never replaced by a fallback)
+        "a": RS.from_rows(freq, o, [(v(0),), (float("inf"),), (NAN,), (v(2),)], "A"),
+        "b": RS.from_rows(freq, o + 2, [(v(3), v(4), v(5)), (NAN, v(6), float("-inf")), (v(8), v(9), NAN)], "B"),
         "c": RS.from_rows(freq, o + 1, [(v(10), v(11)), (v(12), v(13))], "C"),
         "s": 3.5,
         "l": [1.25, 2.25],
